@@ -50,7 +50,7 @@ Qed.
 
 (* (d) forced termination of a process worker always ends with the child gone *)
 Lemma terminate_force_kills k s t :
-  k <> KThread -> consistent s -> alive (fst (step k s (Terminate t true))) = false.
+  is_process_kind k = true -> consistent s -> alive (fst (step k s (Terminate t true))) = false.
 Proof.
   unfold consistent. intros Hk [Hd Hn].
   destruct s as [st dd al c cl lg]; destruct k, st, dd, al, c, cl, t; cbn in *; auto; try congruence;
